@@ -601,10 +601,20 @@ class Interp:
             except Exception:
                 pass
             if p["p"][0] == "*":
+                self._lost_write(env, p)
                 return
         elif p["p"] and p["p"][0] == "*":
+            self._lost_write(env, p)
             return
         env[p["l"]] = UNKNOWN
+
+    def _lost_write(self, env, p):
+        b_ = env.get(p["l"])
+        x = b_.extra if b_ is not None and b_.k == "ref" else None
+        if isinstance(x, tuple) and len(x) > 2 and x[0] == "lostplace":
+            fr = _FRAMES.get(x[2])
+            if fr is not None and x[1] in fr:
+                fr[x[1]] = UNKNOWN
 
     def operand(self, env, o):
         c = op_const(o)
@@ -634,6 +644,10 @@ class Interp:
             # an unmodelled callee that receives `&mut` access to a concrete value may have changed it: the value is unknown from
             # here on (otherwise an evaluation would silently keep the pre-call state — `list.dedup_by(..)`, `map.retain(..)`)
             for a in args:
+                if a.k == "ref" and isinstance(a.extra, tuple) and len(a.extra) > 2 and a.extra[0] == "lostplace":
+                    fr_ = _FRAMES.get(a.extra[2])
+                    if fr_ is not None and a.extra[1] in fr_:
+                        fr_[a.extra[1]] = UNKNOWN
                 if a.k == "ref" and _is_place(a.extra):
                     try:
                         slot = _Slot(*_resolve_place(a.extra, getattr(self, "_env", {})))
@@ -1112,6 +1126,18 @@ class Interp:
             return Val("repeat", d[0])
         if fn == "core::iter::traits::iterator::Iterator::take" and len(d) > 1 and d[0].k == "repeat" and d[1].k == "int" and 0 <= d[1].v < 100000:
             return Val("iter", [d[0].v] * d[1].v)
+        if fn in ("core::iter::traits::collect::IntoIterator::into_iter", "core::iter::traits::iterator::Iterator::rev", "core::iter::traits::iterator::Iterator::map", "core::iter::traits::iterator::Iterator::filter",
+                  "core::iter::traits::iterator::Iterator::enumerate", "core::iter::traits::iterator::Iterator::collect", "core::iter::traits::iterator::Iterator::for_each",
+                  "core::iter::traits::iterator::Iterator::any", "core::iter::traits::iterator::Iterator::all", "core::iter::traits::iterator::Iterator::find", "core::iter::traits::iterator::Iterator::zip",
+                  "core::iter::traits::iterator::Iterator::sum", "core::iter::traits::iterator::Iterator::count", "core::iter::traits::iterator::Iterator::fold") \
+                and d and d[0].k == "adt" and isinstance(d[0].extra, tuple) and str(d[0].extra[0]).startswith("core::ops::range::Range") and args[0].k != "ref":
+            rn_ = str(d[0].extra[0])
+            iv_ = [x.deref().v if x.deref().k == "int" else None for x in d[0].v]
+            if len(iv_) == 2 and None not in iv_ and rn_ in ("core::ops::range::Range", "core::ops::range::RangeInclusive") and 0 <= iv_[1] - iv_[0] < 100000:
+                as_iter = Val("iter", [vint(i_) for i_ in range(iv_[0], iv_[1] + (1 if rn_.endswith("Inclusive") else 0))])
+                if fn.endswith("into_iter"):
+                    return as_iter
+                return self.builtin_models(cs, [as_iter] + list(args[1:]))
         if fn in ("std::collections::hash::map::HashMap::new", "std::collections::hash::map::HashMap::with_capacity", "alloc::collections::btree::map::BTreeMap::new"):
             return Val("list", [], "map")
         if fn.startswith(("std::collections::hash::map::HashMap::", "alloc::collections::btree::map::BTreeMap::")) and d and d[0].k == "list" and d[0].extra == "map":
@@ -1254,9 +1280,38 @@ class Interp:
         fn = cs.fn or ""
         # the place may live in a caller's frame (a `&mut Vec` handed down through followed calls) and may be a field of a value
         # (`self.query_log.retain(..)`): resolved to (frame, local, field path)
-        env = _Slot(*_resolve_place(args[0].extra, env))
+        fr_, l_, path_ = _resolve_place(args[0].extra, env)
+        env = _Slot(fr_, l_, path_)
         tgt = "slot"
         cur = env.get(tgt, UNKNOWN)
+        if fn.startswith("core::option::Option::") and (cur.k == "adt" and cur.extra and cur.extra[0] == "core::option::Option" or (cur.k == "variant" and cur.v == "None")):
+            m0 = fn.rsplit("::", 1)[-1]
+            is_some = cur.k == "adt" and cur.extra[1] == "Some"
+            fid_ = next((k_ for k_, v_ in _FRAMES.items() if v_ is fr_), None)
+
+            def payload_ref():
+                now = env.get(tgt, UNKNOWN)
+                return Val("ref", now.v[0] if now.k == "adt" and now.v else UNKNOWN, ("place", l_, fid_, tuple(path_) + (0,)))
+            if m0 in ("as_mut", "as_deref_mut") and fid_ is not None:
+                return some(payload_ref()) if is_some else NONE_V
+            if m0 == "take":
+                env[tgt] = NONE_V
+                return cur
+            if m0 == "replace" and len(args) > 1:
+                env[tgt] = some(args[1])
+                return cur
+            if m0 == "insert" and len(args) > 1 and fid_ is not None:
+                env[tgt] = some(args[1])
+                return payload_ref()
+            if m0 in ("get_or_insert", "get_or_insert_with", "get_or_insert_default") and fid_ is not None:
+                if not is_some:
+                    if m0 == "get_or_insert" and len(args) > 1:
+                        env[tgt] = some(args[1])
+                    elif m0 == "get_or_insert_with" and len(args) > 1:
+                        env[tgt] = some(self.call_closure(cs, args[1], []))
+                    else:
+                        return None
+                return payload_ref()
         if fn == "core::iter::traits::iterator::Iterator::next" and cur.k == "iter":
             if cur.v:
                 env[tgt] = Val("iter", list(cur.v[1:]))
@@ -1473,6 +1528,16 @@ class Interp:
                 return Val("iter", [Val("ref", x) for x in a.v])
             if fn == "core::iter::traits::collect::IntoIterator::into_iter":
                 return Val("iter", [Val("ref", x) for x in a.v] if by_ref else list(a.v))
+            if fn == "core::ops::index::Index::index" and len(d) > 1:
+                ix = d[1]
+                if ix.k == "int" and 0 <= ix.v < len(a.v):
+                    return Val("ref", a.v[ix.v])
+                if ix.k == "adt" and isinstance(ix.extra, tuple) and str(ix.extra[0]).startswith("core::ops::range::Range"):
+                    iv_ = [x.deref().v if x.deref().k == "int" else None for x in ix.v]
+                    rn_ = str(ix.extra[0]).rsplit("::", 1)[-1]
+                    lo_, hi_ = {"Range": (iv_ + [None, None])[:2], "RangeTo": [0] + iv_[:1], "RangeFrom": iv_[:1] + [len(a.v)], "RangeFull": [0, len(a.v)]}.get(rn_, [None, None])
+                    if lo_ is not None and hi_ is not None and 0 <= lo_ <= hi_ <= len(a.v):
+                        return Val("ref", Val("list", list(a.v[lo_:hi_]), a.extra))
             if fn == "core::slice::<impl [T]>::first":
                 return some(Val("ref", a.v[0])) if a.v else NONE_V
             if fn == "core::slice::<impl [T]>::last":
@@ -1899,8 +1964,8 @@ class Interp:
             return self.operand(env, rv["op"])
         if k == "ref":
             pp = rv["place"]["p"]
-            if rv.get("bk") == "mut" and all(e == "*" or (isinstance(e, dict) and "f" in e and "downcast" not in e) for e in pp):
-                fields = tuple(e["f"] for e in pp if isinstance(e, dict))
+            if rv.get("bk") == "mut" and all(e == "*" or (isinstance(e, dict) and ("f" in e or "downcast" in e)) for e in pp):
+                fields = tuple(e["f"] for e in pp if isinstance(e, dict) and "f" in e)        # `(x as Some).0`: the downcast selects no storage
                 base = env.get(rv["place"]["l"], UNKNOWN)
                 if pp and pp[0] == "*" and base.k == "ref":
                     # a reborrow `&mut *p` / `&mut (*p).f`: the new reference designates p's REFERENT (not the local p)
@@ -1909,6 +1974,10 @@ class Interp:
                         return Val("ref", self.read_place(env, rv["place"]), ("place", x[1], x[2] if len(x) > 2 else getattr(self, "fid", 0), tuple(x[3] if len(x) > 3 else ()) + fields))
                     return Val("ref", self.read_place(env, rv["place"]))
                 return Val("ref", self.read_place(env, rv["place"]), ("place", rv["place"]["l"], getattr(self, "fid", 0), fields))
+            if rv.get("bk") == "mut":
+                # a mutable borrow of storage this interpreter cannot designate (`&mut v[i]`): a later write through it makes the
+                # owner's value unknown instead of being dropped silently
+                return Val("ref", self.read_place(env, rv["place"]), ("lostplace", rv["place"]["l"], getattr(self, "fid", 0)))
             return Val("ref", self.read_place(env, rv["place"]))
         if k == "discr":
             v = self.read_place(env, rv["place"]).deref()
